@@ -43,12 +43,21 @@ def _history_case(draw, tier):
     span = cfg["t1"] - cfg["t0"]
     for _ in range(draw(st.integers(0, 4))):
         base = cfg["t0"] + span * draw(st.integers(0, 1000)) / 1000.0
-        kind = draw(st.sampled_from(["ulp", "subtol", "tiny", "end_ulp", "pad100"]))
+        kind = draw(st.sampled_from(["ulp", "subtol", "tiny", "end_ulp", "pad100", "incell", "incell"]))
         if kind == "ulp":
             extra.append(["raw", base, min(math.nextafter(base, math.inf), cfg["t1"])])
         elif kind == "subtol":
             w = (cfg["tol"] or 1e-9) * draw(st.sampled_from([0.3, 0.5, 0.9, 1.0, 1.5]))
             extra.append(["raw", base, min(base + w, cfg["t1"])])
+        elif kind == "incell":
+            # both end points inside one cell of the library's rounding grid (10^-ndigits, which is coarser than tol when tol
+            # is not a power of ten): the query collapses to a point at resolved times although it may be longer than tol
+            cell = 10.0 ** -history.ndigits_of(cfg["tol"]) if cfg["tol"] > 0 else 1e-9
+            c = round(base, history.ndigits_of(cfg["tol"])) if cfg["tol"] > 0 else base
+            a_ = max(cfg["t0"], c - cell * draw(st.sampled_from([0.0, 0.1, 0.3, 0.45])))
+            b_ = min(cfg["t1"], c + cell * draw(st.sampled_from([0.05, 0.2, 0.4, 0.45])))
+            if a_ <= b_:
+                extra.append(["raw", a_, b_])
         elif kind == "tiny":
             extra.append(["raw", base, min(base + span * 10.0 ** -draw(st.integers(6, 15)), cfg["t1"])])
         elif kind == "end_ulp":
@@ -111,7 +120,7 @@ def _sdeint_case(draw, tier):
     return {"kind": "sdeint", "mode": mode, "t0": t0, "t1": t1, "dt": dt, "n": n,
             "dtype": draw(st.sampled_from(["float64", "float64", "float32"])),
             "method": draw(st.sampled_from(["euler", "srk", "midpoint"])),
-            "tol": draw(st.sampled_from([1e-2, 1e-3, 1e-6])),
+            "tol": draw(st.sampled_from(history.TOLS)),
             "entropy": draw(st.integers(0, 2 ** 31 - 2)), "n_out": draw(st.integers(0, 3))}
 
 
